@@ -456,11 +456,11 @@ func TestC11(t *testing.T) {
 		return
 	}
 
-	rapidCheck(t, "history", tierN(320, 20000), func(rt *rapid.T) {
+	rapidCheck(t, "history", tierN(320, 5000), func(rt *rapid.T) {
 		ops := genHistory().Draw(rt, "history")
 		s.exec(rt, "history", c11Hist{int(genMode().Draw(rt, "mode")), ops}, "history")
 	})
-	rapidCheck(t, "meta", tierN(120, 6000), func(rt *rapid.T) {
+	rapidCheck(t, "meta", tierN(120, 1500), func(rt *rapid.T) {
 		ops := genHistory().Draw(rt, "history")
 		var obs []int
 		for i, o := range ops {
